@@ -606,6 +606,19 @@ def growth_cases(quick):
         cases.append(("diamond-pure-l%d-ret" % l, diamond(l, True, pure=True)))
         cases.append(("diamond-pure-l%d-void" % l, diamond(l, False, pure=True)))
         cases.append(("diamond-pure1-l%d" % l, diamond(l, True, pure="one")))
+    # the same diamonds and fans above SEVERAL variables (per-function result lists that are merged at every call site)
+    for l in [4, 8, 16, 24, 32]:
+        for n_g in (2, 3):
+            for ret in (False, True):
+                D = diamond(l, ret)
+                extra = [{"name": "buf%d" % j, "space": ("storage_rw", "uniform")[j % 2], "group": "0", "binding": str(j), "ty": json_copy(G_RW["ty"]) if j % 2 == 0 else VEC4} for j in range(1, n_g)]
+                D["globals"] += extra
+                for f in D["functions"]:
+                    if any(b.get("k") == "access" for b in f["body"]):
+                        f["body"] += [{"k": "access", "g": g["name"], "how": "load"} for g in extra]
+                D["entries"].append({"name": "fs_main", "stage": "fragment", "params": [], "wg": [], "body": [{"k": "call", "f": "d%d_0" % (l // 2), "expr": ret}]})
+                D["entries"].append({"name": "vs_main", "stage": "vertex", "params": [], "wg": [], "result": {"k": "builtin", "b": "position"}, "body": [{"k": "call", "f": "d0_1", "expr": ret}]})
+                cases.append(("diamond-g%d-l%d-%s" % (n_g, l, "ret" if ret else "void"), D))
     for n in [4, 16, 64, 150]:
         for ret in (False, True):
             cases.append(("fanin-n%d-%s" % (n, "ret" if ret else "void"), fan_in(n, ret)))
